@@ -897,6 +897,40 @@ def run(ck: Check):
                             tie_impl.append(out)
                             tie_hist.append(cbs[0].history if cbs else None)
                             ck.count("tie:model-trace" + (":with-history-callback" if cbs else ""))
+    # ------------------------------------------------------------------ one file loaded TWICE (and again after it was re-written):
+    # every load() yields a NEW object in the saved state - what a first loaded copy went through afterwards, and what the
+    # file held before, must not show (deterministic)
+    from frouros.detectors.concept_drift import DDM as _DDM, DDMConfig as _DDMC
+    from frouros.utils.persistence import load as _load, save as _save
+
+    path2 = tmp_path()
+    try:
+        d0 = _DDM(config=_DDMC(min_num_instances=5))
+        for v in (0, 1, 0, 0, 1, 1):
+            d0.update(value=v)
+        saved = snap(d0)
+        _save(obj=d0, filename=path2)
+        l1 = _load(filename=path2)
+        for v in (1, 1, 1, 1):
+            l1.update(value=v)
+        l2 = _load(filename=path2)
+        ok_twice = l2 is not l1 and snap_diff(saved, snap(l2)) is None
+        for v in (0, 0):
+            d0.update(value=v)
+        saved2 = snap(d0)
+        _save(obj=d0, filename=path2)
+        l3 = _load(filename=path2)
+        ok_rewrite = snap_diff(saved2, snap(l3)) is None
+        err = None
+    except Exception as e:  # noqa: BLE001
+        ok_twice = ok_rewrite = False
+        err = repr(e)
+    finally:
+        _rm(path2)
+    ck.case(dict(kind="load-twice"), nontrivial=True, key=repr(("load-twice",)))
+    ck.count("load_twice_cases")
+    if not (ok_twice and ok_rewrite):
+        ck.violation(dict(clause="resume-equivalence", scenario="load-twice"), dict(what="a second load() of the same file (after the first loaded object was updated), or a load() after the file was re-written, does not yield a new object in the saved state", second_load_ok=ok_twice, load_after_rewrite_ok=ok_rewrite, error=err))
     # ------------------------------------------------------------------ model evaluation
     if tie_cases:
         models = run_models("C15", tie_cases, shard=30)
